@@ -28,19 +28,20 @@ var c10T0 = time.Date(2001, 2, 3, 4, 5, 6, 0, time.UTC)
 type c10FileDef struct {
 	name   string
 	size   int64
-	tOff   int // seconds after t0
+	tOff   int // milliseconds after t0
 	group  string
 }
 
-// equal stamps included (a,b); c older-than-d; x lives in a second group
+// equal stamps included (a,b); d is older than c by 300 ms within one second (names sort the
+// other way round); x lives in a second group, y and z follow it, z 100 ms before y
 var c10Files = map[string]c10FileDef{
 	"g1.a": {"g1.a", 2, 0, "g1"},
 	"g1.b": {"g1.b", 1, 0, "g1"},
-	"g1.c": {"g1.c", 3, 1, "g1"},
-	"g1.d": {"g1.d", 2, 2, "g1"},
-	"g2.x": {"g2.x", 2, 1, "g2"},
-	"g2.y": {"g2.y", 1, 3, "g2"},
-	"g2.z": {"g2.z", 2, 4, "g2"},
+	"g1.c": {"g1.c", 3, 1700, "g1"},
+	"g1.d": {"g1.d", 2, 1400, "g1"},
+	"g2.x": {"g2.x", 2, 1000, "g2"},
+	"g2.y": {"g2.y", 1, 3500, "g2"},
+	"g2.z": {"g2.z", 2, 3400, "g2"},
 }
 
 type c10Pending struct {
@@ -203,7 +204,7 @@ func c10Run(order string, hist []c10Action) (res vh.HistResult) {
 		switch a.Op {
 		case "push", "dup":
 			d := c10Files[a.File]
-			f := &qFile{name: d.name, size: d.size, time: c10T0.Add(time.Duration(d.tOff) * time.Second)}
+			f := &qFile{name: d.name, size: d.size, time: c10T0.Add(time.Duration(d.tOff) * time.Millisecond)}
 			q.Push([]sts.Hashed{f})
 			m.times[d.name] = f.time
 			if a.Op == "dup" {
